@@ -42,6 +42,9 @@ type Case struct {
 	Clauses [][]int  `json:"clauses,omitempty"`
 	Constrs []gen.PC `json:"constrs,omitempty"`
 	Ops     []Op     `json:"ops"`
+	// CPAt switches the cutting-planes strategy on: 0 never, 1 right after New, k > 1 just before the (k-1)-th operation
+	// of the history (an exported field of the solver, which a caller may set at any time between two calls).
+	CPAt int `json:"cp_at,omitempty"`
 }
 
 func baseSems(c Case) []oracle.Constr {
@@ -81,9 +84,15 @@ func check(c Case, o *vf.Obs) error {
 	nVars := pb.NbVars
 	conj := baseSems(c)
 	s := solver.New(pb)
+	s.CuttingPlanes = c.CPAt == 1
+	o.ClassIf(c.CPAt == 1, "cutting-planes-from-start")
+	o.ClassIf(c.CPAt > 1 && c.CPAt-2 < len(c.Ops), "cutting-planes-switched-on-later")
 	wasUnsat := false
 	solves, addsSinceSolve, reused := 0, 0, false
 	for step, op := range c.Ops {
+		if c.CPAt > 1 && step == c.CPAt-2 {
+			s.CuttingPlanes = true
+		}
 		if op.Kind != "solve" {
 			if mv := oracle.MaxVar([][]int{op.Lits}); mv > nVars {
 				nVars = mv
@@ -276,6 +285,20 @@ func genLongCardOps(t *rapid.T, c *Case) {
 }
 
 func genCase(front string) func(t *rapid.T) Case {
+	inner := genCase0(front)
+	return func(t *rapid.T) Case {
+		c := inner(t)
+		if gen.Chance(t, 1, 4, "cp") {
+			c.CPAt = 1
+			if rapid.Bool().Draw(t, "late") {
+				c.CPAt = 2 + gen.Uniform(t, 0, len(c.Ops), "cpAt")
+			}
+		}
+		return c
+	}
+}
+
+func genCase0(front string) func(t *rapid.T) Case {
 	return func(t *rapid.T) Case {
 		c := Case{Front: front}
 		switch front {
@@ -354,7 +377,7 @@ func max(a, b int) int {
 }
 
 func init() {
-	tail := "; history of 1..12 steps (Solve | AppendClause of a clause with possibly repeated/complementary literals | cardinality constraint 1<=k<=len | PB constraint with weights 1..4, k>=1), new variables up to 3 beyond the current maximum (total <=10), additions aimed with the harness's oracle (agreeing with / against a current model, entailed, contradictory); invariant after every Solve: verdict = truth table of base AND everything added, model satisfies it, Unsat is permanent; non-trivial = a Solve after an addition after a Solve"
+	tail := "; the cutting-planes strategy is on from the start or switched on at a drawn point of the history in a quarter of the cases; history of 1..12 steps (Solve | AppendClause of a clause with possibly repeated/complementary literals | cardinality constraint 1<=k<=len | PB constraint with weights 1..4, k>=1), new variables up to 3 beyond the current maximum (total <=10), additions aimed with the harness's oracle (agreeing with / against a current model, entailed, contradictory); invariant after every Solve: verdict = truth table of base AND everything added, model satisfies it, Unsat is permanent; non-trivial = a Solve after an addition after a Solve"
 	vf.Register(
 		vf.Sub[Case]{Name: "cnf-base", Quick: 12000, Thorough: 150000, Gen: genCase("slicenb"), Check: check, Floor: 0.4, Rule: "base CNF via ParseSliceNb (n<=8)" + tail},
 		vf.Sub[Case]{Name: "conflict-rich-base", Quick: 1500, Thorough: 20000, Gen: genCase("hard"), Check: check, Floor: 0.4, Rule: "base = threshold 3-SAT at n 10..13 or a satisfiable pigeonhole formula (12 variables): the solver has learned clauses and units when constraints are added (variables up to 14)" + tail},
